@@ -9,6 +9,13 @@
 #include "romea_core_common/regression/ransac/Ransac.hpp"
 #include "romea_core_common/regression/ransac/RansacModel.hpp"
 #include "romea_core_common/regression/leastsquares/NLSE.hpp"
+#include "romea_core_common/log/SimpleFileLogger.hpp"
+#include "romea_core_common/math/EulerAngles.hpp"
+#include "romea_core_common/math/Algorithm.hpp"
+#include "romea_core_common/math/Interval.hpp"
+#include <fstream>
+#include <sstream>
+#include <unistd.h>
 #include <limits>
 
 using namespace romea::core;
@@ -101,14 +108,103 @@ static void nlse(vh::Rng & r, vh::Out & out)
     .i("est10", est10).b("rmseUnset", unset).i("mse2", mse2));
 }
 
+static std::string g_logfile;
+
+// SimpleFileLogger: entries named c<id> with integer values; the file is read back and logged as integer fields per line
+static void logger(vh::Rng & r, vh::Out & out, bool open)
+{
+  SimpleFileLogger lg;
+  if (open) {lg.init(g_logfile, r.coin() ? "," : ";");}
+  int steps = (int)r.range(0, 14);
+  int ncols = (int)r.range(0, 4);
+  for (int s = 0; s < steps; ++s) {
+    // rows keep the column layout of the first written row (the class asserts it)
+    for (int c = 0; c < ncols; ++c) {
+      long long v = r.range(-500, 500);
+      if (r.coin()) {lg.addEntry("c" + std::to_string(c + 1), (int)v);} else {lg.addEntry("c" + std::to_string(c + 1), (long)v);}
+      out.put(vh::Ev("lgadd").i("name", c + 1).i("v", v));
+    }
+    lg.writeRow();
+    out.put(vh::Ev("lgwrite"));
+  }
+  std::vector<IV> lines;
+  if (open) {
+    std::ifstream f(g_logfile);
+    std::string line;
+    while (std::getline(f, line)) {
+      IV fields;
+      bool header = !line.empty() && line[0] == '%';
+      if (header) {fields.push_back(-1000); line = line.substr(1);}
+      std::string tok;
+      for (char ch : line) {
+        if (ch == ',' || ch == ';') {
+          if (header) {
+            // "(k)c<id>": the position must be k and the name c<id>
+            size_t close = tok.find(')');
+            long long pos = std::atoll(tok.substr(1, close - 1).c_str());
+            long long id = tok.size() > close + 2 && tok[close + 1] == 'c' ? std::atoll(tok.substr(close + 2).c_str()) : -77;
+            fields.push_back(pos == (long long)fields.size() ? id : -99);
+          } else {fields.push_back(std::atoll(tok.c_str()));}
+          tok.clear();
+        } else {tok += ch;}
+      }
+      if (!tok.empty()) {fields.push_back(-88);}                           // every field is followed by the separator
+      lines.push_back(fields);
+    }
+  }
+  out.put(vh::Ev("lgfile").mat("lines", lines));
+}
+
+static void misc(vh::Rng & r, vh::Out & out)
+{
+  {
+    long long k = r.range(-15, 15);
+    double v = (double)k * (M_PI / 4);
+    bool ok = true;
+    long long j02 = vh::proj(between0And2Pi(v) / (M_PI / 4), ok, 1e-6), jpi = vh::proj(betweenMinusPiAndPi(v) / (M_PI / 4), ok, 1e-6);
+    out.put(vh::Ev("wrap").i("k", k).i("j02", j02).i("jpi", jpi).b("ex", ok));
+  }
+  {
+    long long x2 = r.range(-40, 40), y2 = r.range(-40, 40), a = r.range(-40, 40), b = r.range(-40, 40);
+    long long lo2 = std::min(a, b), hi2 = std::max(a, b);
+    double x = x2 / 2.0, y = y2 / 2.0;
+    auto d = safeDivide(x, y);
+    bool ok = true;
+    out.put(vh::Ev("algo").i("x2", x2).i("y2", y2).i("lo2", lo2).i("hi2", hi2).i("sign", (long long)sign(x))
+      .i("smin", (long long)(2 * signedMin(x, y))).i("sfloor", (long long)signedFloor(x)).i("clamp", (long long)(2 * clamp(x, lo2 / 2.0, hi2 / 2.0)))
+      .i("sclamp", (long long)(2 * symmetricClamp(x, std::fabs(y)))).b("divHas", d.has_value())
+      .i("div", d.has_value() && y2 != 0 && x2 % y2 == 0 ? vh::proj(*d, ok, 1e-9) : 0));
+  }
+  auto box = [&](auto tag) {
+      constexpr int D = decltype(tag)::value;
+      using I = Interval<double, D>;
+      using T = typename I::T;
+      auto rnd = [&](T & lo, T & hi, long long m) {for (int a = 0; a < D; ++a) {long long u = r.range(-m, m), v = r.range(-m, m); lo[a] = (double)std::min(u, v); hi[a] = (double)std::max(u, v);}};
+      T lo, hi, lo2, hi2, p, limLo, limHi;
+      rnd(lo, hi, 6); rnd(lo2, hi2, 8);
+      for (int a = 0; a < D; ++a) {p[a] = (double)r.range(-9, 9); limLo[a] = lo[a] - (double)r.range(0, 3); limHi[a] = hi[a] + (double)r.range(0, 3);}
+      I i1(lo, hi), i2(lo2, hi2), hull(lo, hi);
+      hull.include(i2);
+      IntervalComplement<double, D> compl_(i1, I(limLo, limHi));
+      auto iv = [&](const T & t, double f = 1) {IV v; for (int a = 0; a < D; ++a) {v.push_back((long long)(t[a] * f));} return v;};
+      out.put(vh::Ev("intervaln").vec("lo", iv(lo)).vec("hi", iv(hi)).vec("lo2", iv(lo2)).vec("hi2", iv(hi2)).vec("p", iv(p))
+        .vec("limLo", iv(limLo)).vec("limHi", iv(limHi)).b("inside", i1.inside(p)).vec("width", iv(i1.width())).vec("center2", iv(i1.center(), 2))
+        .vec("hullLo", iv(hull.lower())).vec("hullHi", iv(hull.upper())).b("hullInside", hull.inside(p)).b("complInside", compl_.inside(p)));
+    };
+  if (r.coin()) {box(std::integral_constant<int, 2>());} else {box(std::integral_constant<int, 3>());}
+}
+
 static void exec(vh::Rng & r, vh::Out & out)
 {
   long long kp = r.range(-3, 3), ki = r.range(0, 3), kd = r.range(0, 2), lo8 = -8 * r.range(0, 20), hi8 = 8 * r.range(0, 20), eps = r.range(0, 3);
   int w = (int)r.range(0, 4);
-  out.put(vh::Ev("Reset").i("kp", kp).i("ki", ki).i("kd", kd).i("imin8", lo8).i("imax8", hi8).i("eps", eps).i("w", w));
+  bool lgopen = !r.coin(1, 5);
+  out.put(vh::Ev("Reset").i("kp", kp).i("ki", ki).i("kd", kd).i("imin8", lo8).i("imax8", hi8).i("eps", eps).i("w", w).b("lgopen", lgopen));
   PID pid((double)kp, (double)ki, (double)kd, lo8 / 8.0, hi8 / 8.0, (double)eps);
   FirstOrderButterworth f(w / 4.0);
   long long at = 0;
+  logger(r, out, lgopen);
+  misc(r, out);
   int len = (int)r.range(1, 40);
   for (int s = 0; s < len; ++s) {
     int what = (int)r.range(0, 9);
@@ -163,7 +259,9 @@ int main(int argc, char ** argv)
   vh::Rng r(std::strtoull(argv[2], nullptr, 10));
   int n = std::atoi(argv[3]);
   vh::Out out(argv[4]);
+  g_logfile = std::string(argv[4]) + ".log." + std::to_string((long long)getpid());
   for (int k = 0; k < n; ++k) {exec(r, out); if (k % 4 == 0) {ransac(r, out);} nlse(r, out);}
+  unlink(g_logfile.c_str());
   std::printf("%lld\n", out.lines);
   return 0;
 }
